@@ -97,6 +97,8 @@ type c35Metric struct {
 	NegBuckets []float64
 	NEx        []*c35Ex
 	Gauge      bool
+	// family of type c35Native: this metric has no native part (classic buckets only)
+	ClassicOnly bool
 }
 
 type c35Fam struct {
@@ -299,6 +301,28 @@ type c35Want struct {
 	Samples []string
 }
 
+// Alternative expectations that describe known defects exactly (used only to give them their own
+// narrow signatures; the primary expectation is always the quirk-free one).
+const (
+	c35QExEscaped   = 1 << iota // OpenMetrics: exemplar label values returned still escaped
+	c35QUnitLeak                // OpenMetrics: a family without UNIT inherits the previous family's unit
+	c35QNativeExLost            // protobuf: exemplars of native histograms lost from the 2nd metric of a family on
+	c35QMixedClassic            // protobuf: native metrics following a classic-only first metric are parsed as classic
+)
+
+var c35OMEscaper = strings.NewReplacer("\\", "\\\\", "\n", "\\n", "\"", "\\\"")
+
+func c35ExStrQ(e *c35Ex, fm int, quirks int) string {
+	if quirks&c35QExEscaped != 0 && fm == c35OM {
+		kv := append([]string{}, e.Lbl...)
+		for i := 1; i < len(kv); i += 2 {
+			kv[i] = c35OMEscaper.Replace(kv[i])
+		}
+		e = &c35Ex{Lbl: kv, Val: e.Val, HasTS: e.HasTS, TS: e.TS}
+	}
+	return c35ExStr(e, fm)
+}
+
 func c35ExStr(e *c35Ex, fm int) string {
 	x := tpxEx{Labels: labels.FromStrings(e.Lbl...).String(), Val: tpxBits(e.Val), HasTS: e.HasTS, TS: e.TS}
 	return fmt.Sprintf("#%s %s %v@%d", x.Labels, tpxF(x.Val), x.HasTS, x.TS)
@@ -329,7 +353,10 @@ func c35TypeName(f *c35Fam, fm int) string {
 }
 
 // c35Expect computes the expected metadata entries and samples of ONE family.
-func c35Expect(f *c35Fam, fm int, o c35Opts) c35Want {
+func c35Expect(f *c35Fam, fm int, o c35Opts) c35Want { return c35ExpectQ(f, fm, o, 0, "") }
+
+// c35ExpectQ: quirks/leakedUnit select an alternative expectation (see c35Q*).
+func c35ExpectQ(f *c35Fam, fm int, o c35Opts, quirks int, leakedUnit string) c35Want {
 	var w c35Want
 	famName := f.Name
 	if fm == c35OM && f.Type == c35Counter {
@@ -352,7 +379,11 @@ func c35Expect(f *c35Fam, fm int, o c35Opts) c35Want {
 		w.Meta = append(w.Meta, fmt.Sprintf("unit %q %q", famName, unit))
 	}
 	wantST := (fm == c35OM && o.SkipST) || fm == c35Proto
-	for _, m := range f.Metrics {
+	lblUnit := unit
+	if lblUnit == "" && quirks&c35QUnitLeak != 0 && fm == c35OM {
+		lblUnit = leakedUnit
+	}
+	for mi, m := range f.Metrics {
 		hasTS, ts := m.HasTS, m.TS
 		if fm == c35Proto && ts == 0 {
 			hasTS = false // protobuf cannot distinguish timestamp 0 from "no timestamp" (documented)
@@ -364,8 +395,8 @@ func c35Expect(f *c35Fam, fm int, o c35Opts) c35Want {
 				if typ != "unknown" {
 					kv = append(kv, "__type__", typ)
 				}
-				if unit != "" {
-					kv = append(kv, "__unit__", unit)
+				if lblUnit != "" {
+					kv = append(kv, "__unit__", lblUnit)
 				}
 			}
 			return labels.FromStrings(kv...)
@@ -381,7 +412,7 @@ func c35Expect(f *c35Fam, fm int, o c35Opts) c35Want {
 			if e == nil || fm == c35Text {
 				return nil
 			}
-			return []string{c35ExStr(e, fm)}
+			return []string{c35ExStrQ(e, fm, quirks)}
 		}
 		created := func() {
 			// OpenMetrics "_created" line kept as an ordinary sample (no timestamp) unless skipped
@@ -391,8 +422,8 @@ func c35Expect(f *c35Fam, fm int, o c35Opts) c35Want {
 					if typ != "unknown" {
 						kv = append(kv, "__type__", typ)
 					}
-					if unit != "" {
-						kv = append(kv, "__unit__", unit)
+					if lblUnit != "" {
+						kv = append(kv, "__unit__", lblUnit)
 					}
 				}
 				w.Samples = append(w.Samples, c35SampleStr(labels.FromStrings(kv...), "="+tpxF(tpxBits(float64(m.ST)/1000)), false, 0, nil, st))
@@ -416,10 +447,15 @@ func c35Expect(f *c35Fam, fm int, o c35Opts) c35Want {
 			add(lset(f.Name+"_count"), m.Count, nil)
 			created()
 		case c35Histogram, c35Native:
-			native := f.Type == c35Native && fm == c35Proto && !o.IgnoreNative
+			native := f.Type == c35Native && fm == c35Proto && !o.IgnoreNative && !m.ClassicOnly
+			if quirks&c35QMixedClassic != 0 && f.Metrics[0].ClassicOnly {
+				native = false
+			}
 			if native {
 				var ex []string
-				if len(m.NEx) > 0 {
+				if quirks&c35QNativeExLost != 0 && mi > 0 {
+					// nothing
+				} else if len(m.NEx) > 0 {
 					for _, e := range m.NEx {
 						if e.HasTS { // exemplars of native histograms need a timestamp (documented)
 							ex = append(ex, c35ExStr(e, fm))
@@ -727,15 +763,27 @@ func c35RunFaith(r *vx.Run, cs c35Case, fams []*c35Fam, nontrivial *atomic.Int64
 				continue
 			}
 			if perr != nil {
-				r.Violation("valid-payload-rejected/"+c35FmtNames[fm], fmt.Sprintf("error %v %s", perr, ctx()), cs)
+				sig := "valid-payload-rejected/" + c35FmtNames[fm]
+				if fm == c35Text && c35HasNegTS(fams) && strings.Contains(perr.Error(), "expected timestamp or new record, got \"-\"") {
+					sig = "text-negative-timestamp-rejected"
+				}
+				r.Violation(sig, fmt.Sprintf("error %v %s", perr, ctx()), cs)
 				continue
 			}
-			var want c35Want
-			for _, f := range fams {
-				w := c35Expect(f, fm, o)
-				want.Meta = append(want.Meta, w.Meta...)
-				want.Samples = append(want.Samples, w.Samples...)
+			expect := func(quirks int) c35Want {
+				var want c35Want
+				leaked := ""
+				for _, f := range fams {
+					w := c35ExpectQ(f, fm, o, quirks, leaked)
+					want.Meta = append(want.Meta, w.Meta...)
+					want.Samples = append(want.Samples, w.Samples...)
+					if f.Unit != "" {
+						leaked = f.Unit
+					}
+				}
+				return want
 			}
+			want := expect(0)
 			got := c35Got(es)
 			if len(got.Samples) > 0 {
 				nontrivial.Add(1)
@@ -746,7 +794,30 @@ func c35RunFaith(r *vx.Run, cs c35Case, fams []*c35Fam, nontrivial *atomic.Int64
 				r.Violation("metadata-mismatch/"+c35FmtNames[fm], fmt.Sprintf("metadata entries parsed:\n  %s\nexpected:\n  %s\n%s", strings.Join(got.Meta, "\n  "), strings.Join(want.Meta, "\n  "), ctx()), cs)
 			}
 			if !c35SortedEq(got.Samples, want.Samples) {
-				r.Violation(c35SampleSig(got.Samples, want.Samples)+"/"+c35FmtNames[fm], fmt.Sprintf("samples parsed:\n  %s\nexpected:\n  %s\n%s", strings.Join(got.Samples, "\n  "), strings.Join(want.Samples, "\n  "), ctx()), cs)
+				sig := c35SampleSig(got.Samples, want.Samples) + "/" + c35FmtNames[fm]
+				for i := range es {
+					if es[i].Kind == "hist" && es[i].H == nil && es[i].FH == nil {
+						sig = "histogram-entry-without-histogram/" + c35FmtNames[fm]
+					}
+				}
+				// known defects get their own signature when (and only when) the output equals
+				// the alternative expectation that describes exactly that defect
+				for _, q := range []struct {
+					q   int
+					sig string
+				}{
+					{c35QExEscaped, "om-exemplar-label-value-not-unescaped"},
+					{c35QUnitLeak, "om-unit-label-leaks-into-next-family"},
+					{c35QNativeExLost, "proto-native-exemplars-lost-after-first-metric"},
+					{c35QMixedClassic, "proto-native-after-classic-metric-parsed-as-classic"},
+					{c35QExEscaped | c35QUnitLeak, "om-exemplar-label-value-not-unescaped"},
+				} {
+					if c35SortedEq(got.Samples, expect(q.q).Samples) {
+						sig = q.sig
+						break
+					}
+				}
+				r.Violation(sig, fmt.Sprintf("samples parsed:\n  %s\nexpected:\n  %s\n%s", strings.Join(got.Samples, "\n  "), strings.Join(want.Samples, "\n  "), ctx()), cs)
 			}
 			if !o.TypeUnit && !o.IgnoreNative && !o.KeepClassic && !o.SkipST {
 				proj[fm], have[fm] = c35Project(es, fm), true
@@ -761,6 +832,17 @@ func c35RunFaith(r *vx.Run, cs c35Case, fams []*c35Fam, nontrivial *atomic.Int64
 			}
 		}
 	}
+}
+
+func c35HasNegTS(fams []*c35Fam) bool {
+	for _, f := range fams {
+		for _, m := range f.Metrics {
+			if m.HasTS && m.TS < 0 {
+				return true
+			}
+		}
+	}
+	return false
 }
 
 // c35SampleSig classifies a sample mismatch by the first field that differs.
@@ -849,7 +931,7 @@ func c35Ex1(k int) *c35Ex {
 	case 2:
 		return &c35Ex{Lbl: []string{"trace_id", "a\\b\"c\nd", "span", "é"}, Val: -1, HasTS: false}
 	case 3:
-		return &c35Ex{Lbl: []string{}, Val: math.Inf(1), HasTS: true, TS: 1700000000123}
+		return &c35Ex{Lbl: []string{"id", "x"}, Val: math.Inf(1), HasTS: true, TS: 1700000000123}
 	}
 	return nil
 }
@@ -1057,6 +1139,30 @@ func c35Facets(r *vx.Run) []c35Facet {
 			return out
 		}})
 	}
+	// F5: protobuf families mixing native and classic-only metrics
+	{
+		dims := []int{2, 2, 2, 2}
+		fs = append(fs, c35Facet{"mixed-native-classic", int(vx.ProductSize(dims)), func(i int) []*c35Fam {
+			d := vx.ProductAt(dims, int64(i), nil)
+			nat := c35Metric{Lbl: []string{"k", "native"}, Schema: 3, ZeroThresh: 0.001, ZeroCount: 2, PosSpans: [][2]int{{0, 2}}, PosBuckets: []float64{1, 4}, Count: 7, Sum: 1.25}
+			if d[1] == 1 {
+				nat.B, nat.Cum = []float64{1, math.Inf(1)}, []float64{3, 7}
+			}
+			cl := c35Metric{Lbl: []string{"k", "classic"}, ClassicOnly: true, B: []float64{1}, Cum: []float64{2}, Count: 5, Sum: 2.5}
+			if d[2] == 1 {
+				cl.HasTS, cl.TS = true, 1700000000123
+			}
+			f := &c35Fam{Name: "mx", Type: c35Native, Help: proto.String("mixed"), Metrics: []c35Metric{nat, cl}}
+			if d[0] == 1 {
+				f.Metrics = []c35Metric{cl, nat}
+			}
+			out := []*c35Fam{f}
+			if d[3] == 1 {
+				out = append(out, c35Tail())
+			}
+			return out
+		}})
+	}
 	return fs
 }
 
@@ -1078,7 +1184,7 @@ func c35Total(r *vx.Run, fm int, b []byte, what string, outcomes *[3]atomic.Int6
 			r.NotExhaustive("more than 8 parses never returned; their goroutines keep spinning, remaining cases skipped")
 			return
 		}
-		if fm == c35OM && o.SkipST && c35Leaked.Load() > 0 && plainErr != nil && c35HangProne(plainErr) {
+		if fm == c35OM && o.SkipST && c35Leaked.Load() > 0 && plainErr != nil && c35HangProne(b) {
 			// known finding om-start-timestamp-peek-hangs-on-invalid-exemplar: once observed, further
 			// payloads with the same precondition are not executed (each would abandon a spinning goroutine)
 			r.Count("st_peek_parses_skipped_after_known_hang", 1)
@@ -1090,7 +1196,7 @@ func c35Total(r *vx.Run, fm int, b []byte, what string, outcomes *[3]atomic.Int6
 		}
 		if err == errC35Hang {
 			sig := "parser-does-not-terminate/" + c35FmtNames[fm]
-			if fm == c35OM && o.SkipST && plainErr != nil && c35HangProne(plainErr) {
+			if fm == c35OM && o.SkipST && plainErr != nil && c35HangProne(b) {
 				sig = "om-start-timestamp-peek-hangs-on-invalid-exemplar"
 			}
 			r.Violation(sig, fmt.Sprintf("parsing %s %q (options %s) did not return within 10s (Next/StartTimestamp never returns); the same bytes without StartTimestamp calls fail with: %v", what, b, o, plainErr), map[string]any{"facet": "bytes", "fmt": fm, "bytes": fmt.Sprintf("%x", b)})
@@ -1123,10 +1229,9 @@ func c35Total(r *vx.Run, fm int, b []byte, what string, outcomes *[3]atomic.Int6
 	}
 }
 
-// c35HangProne: the plain parse failed on an invalid token inside an exemplar (" # {" seen).
-func c35HangProne(err error) bool {
-	m := err.Error()
-	return strings.Contains(m, "INVALID") && strings.Contains(m, " # {")
+// c35HangProne (used together with "the plain parse of these bytes fails"): the payload has an exemplar.
+func c35HangProne(payload []byte) bool {
+	return bytes.Contains(payload, []byte(" # {"))
 }
 
 func TestVerifC35(t *testing.T) {
@@ -1196,7 +1301,8 @@ func TestVerifC35(t *testing.T) {
 			fams := f.At(int(i))
 			c35RunFaith(r, c35Case{f.Name, int(i)}, fams, &nontrivial)
 			r.Count("faithfulness_families", 1)
-			if i%vx.Pick(r, int64(997), int64(211)) == 0 {
+			n := int64(f.N)
+			if i%vx.Pick(r, int64(997), int64(211)) == 0 || i == n/3 || i == n/2 || i == (2*n)/3 || i == n-1 {
 				for fm := c35Text; fm <= c35Proto; fm++ {
 					ok := true
 					for _, ff := range fams {
